@@ -359,6 +359,10 @@ def build(cfg):
         from pySDC.implementations.convergence_controller_classes.basic_restarting import BasicRestartingNonMPI
 
         description['convergence_controllers'][BasicRestartingNonMPI] = dict(cfg['restarting'])
+        if cfg.get('restarting_first'):
+            # the user may list the controllers in either order; dependencies are then resolved in another order
+            ccs = description['convergence_controllers']
+            description['convergence_controllers'] = {BasicRestartingNonMPI: ccs.pop(BasicRestartingNonMPI), **ccs}
     if cfg.get('restart_script'):
         level_params['restol'] = -1.0
         description['convergence_controllers'][resolve('ScriptedRestart')] = {}
